@@ -8,23 +8,23 @@ CONSTANTS
   TrackObs = FALSE
   TrackDeps = FALSE
   Dev = "none"
-  SetupPlan <- Ksf_SetupPlan
-  RegPlan <- Ksf_RegPlan
-  RegIdus <- Ksf_RegIdus
-  RegIdss <- Ksf_RegIdss
-  RegKsfs <- Ksf_RegKsfs
-  CliPw <- Ksf_CliPw
-  SrvSetups <- Ksf_SrvSetups
-  SrvRecs <- Ksf_SrvRecs
-  SrvCids <- Ksf_SrvCids
-  SrvCtxs <- Ksf_SrvCtxs
-  SrvIdus <- Ksf_SrvIdus
-  SrvIdss <- Ksf_SrvIdss
-  CliCtxs <- Ksf_CliCtxs
-  CliIdus <- Ksf_CliIdus
-  CliIdss <- Ksf_CliIdss
-  CliKsfs <- Ksf_CliKsfs
-  MutPlan <- Ksf_MutPlan
+  SetupPlan <- Long_SetupPlan
+  RegPlan <- Long_RegPlan
+  RegIdus <- Long_RegIdus
+  RegIdss <- Long_RegIdss
+  RegKsfs <- Long_RegKsfs
+  CliPw <- Long_CliPw
+  SrvSetups <- Long_SrvSetups
+  SrvRecs <- Long_SrvRecs
+  SrvCids <- Long_SrvCids
+  SrvCtxs <- Long_SrvCtxs
+  SrvIdus <- Long_SrvIdus
+  SrvIdss <- Long_SrvIdss
+  CliCtxs <- Long_CliCtxs
+  CliIdus <- Long_CliIdus
+  CliIdss <- Long_CliIdss
+  CliKsfs <- Long_CliKsfs
+  MutPlan <- Long_MutPlan
   Splice = FALSE
   Reloads = FALSE
   ExtFail = FALSE
